@@ -52,8 +52,8 @@ def run(prog, chk):
     # are decided by the same draw
     engines = [gl for key, gl in prog.facts.globals.items() if gl['file'].endswith('qasm_simulator.cpp') and ('mersenne_twister' in gl['type'] or 'mt19937' in gl['type'] or
                                                                                                            'linear_congruential' in gl['type'] or 'default_random_engine' in gl['type'])]
-    for f_ in R.sim_methods():
-        for v_ in SX.walk(f_.body, into_lambdas=False) if f_.body else []:
+    for f_ in prog.in_file('qasm_simulator.cpp', with_lambdas=False):
+        for v_ in SX.walk(f_.body) if f_.body else []:
             if v_.get('k') == 'var' and ('mersenne_twister' in (v_.get('type') or '') or 'mt19937' in (v_.get('type') or '')):
                 engines.append({'name': f_.short + '::' + v_['name'], 'ln': v_.get('ln', 0)})
     chk.ob('R02.2', m, m.ln, len(engines) == 1, 'the simulator draws from exactly one random engine (found %s)' % [g_['name'].split('::')[-1] for g_ in engines], key='one-generator')
